@@ -93,6 +93,18 @@ def refField (e : Event) (name : String) : Option (List Char) :=
   | "$upstream_service" => some e.upstreamService
   | _ => none
 
+/-- what one item of a parsed pattern contributes to the line, by the reference -/
+def refItemText (e : Event) : Item → List Char
+  | .text s => s
+  | .header name =>
+    (match e.hasRequest, e.header with
+     | true, some h => headerGet h name
+     | _, _ => [])
+  | .field name => (refField e (String.ofList name)).getD []
+
+/-- the reference rendering of a whole pattern: the line without its newline -/
+def refLine (p : List Item) (e : Event) : List Char := p.flatMap (refItemText e)
+
 /-- The fields listed in the package comment of `logger/logger.go` (without `$header.<name>`). -/
 def documentedFields : List String := [
   "$remote_addr", "$remote_host", "$remote_port", "$request", "$request_args", "$request_host",
